@@ -205,9 +205,10 @@ func minPosTTL(t []uint32) uint32 {
 	return m
 }
 
-// observe maps a result to the data version each of its three RRSets belongs to. specOf(v) is the spec that was
-// installed as version v (nil = no such version). A set that is not exactly the RRSet of one version is verBad.
-func observe(name string, res ech.ResolveResult, specOf func(v int) zoneSpec) (ver [3]int, problem string) {
+// observe maps a result to the data version each of its three RRSets belongs to. endOf(v) tells which name the
+// data of the looked-up name comes from at version v (the name itself, or the end of its CNAME chain) and that
+// name's RRSets (nil = no such version). A set that is not exactly the RRSet of one version is verBad.
+func observe(name string, res ech.ResolveResult, endOf func(v int) (owner string, sets *[3]rrset)) (ver [3]int, problem string) {
 	ver = [3]int{verEmpty, verEmpty, verEmpty}
 	bad := func(k int, f string, a ...any) {
 		ver[k] = verBad
@@ -218,30 +219,28 @@ func observe(name string, res ech.ResolveResult, specOf func(v int) zoneSpec) (v
 	// HTTPS
 	for i, h := range res.HTTPS {
 		var v, idx int
-		var owner string
 		parts := strings.Split(string(h.ECH), ";")
 		if len(parts) == 3 && strings.HasPrefix(parts[0], "v=") {
 			v, _ = strconv.Atoi(parts[0][2:])
-			owner = parts[1]
 			idx, _ = strconv.Atoi(parts[2])
 		}
-		if len(parts) != 3 || owner != name || string(h.ECH) != echTag(v, name, idx) {
-			bad(kHTTPS, "record %d carries ech %q which no version of %s has", i, h.ECH, name)
+		owner, sets := endOf(v)
+		if len(parts) != 3 || sets == nil || string(h.ECH) != echTag(v, owner, idx) {
+			bad(kHTTPS, "record %d carries ech %q which is not a record of the name %s leads to at that version", i, h.ECH, name)
 			break
 		}
 		if i == 0 {
 			ver[kHTTPS] = v
 		}
-		sp := specOf(v)
 		switch {
 		case v != ver[kHTTPS]:
 			bad(kHTTPS, "records of versions %d and %d in one result", ver[kHTTPS], v)
-		case sp == nil || sp[name] == nil || len(sp[name][kHTTPS].TTLs) != len(res.HTTPS):
+		case len(sets[kHTTPS].TTLs) != len(res.HTTPS):
 			bad(kHTTPS, "%d records, version %d has another number", len(res.HTTPS), v)
 		case idx != i || int(h.Priority) != i+1:
 			bad(kHTTPS, "record %d is record %d (priority %d) of version %d", i, idx, h.Priority, v)
-		case fmt.Sprint(h.ALPN) != fmt.Sprint(sp[name][kHTTPS].ALPN[i]) || h.NoDefaultALPN != sp[name][kHTTPS].NDA[i]:
-			bad(kHTTPS, "record %d has alpn %q no-default-alpn=%v, the zone has %q %v", i, h.ALPN, h.NoDefaultALPN, sp[name][kHTTPS].ALPN[i], sp[name][kHTTPS].NDA[i])
+		case fmt.Sprint(h.ALPN) != fmt.Sprint(sets[kHTTPS].ALPN[i]) || h.NoDefaultALPN != sets[kHTTPS].NDA[i]:
+			bad(kHTTPS, "record %d has alpn %q no-default-alpn=%v, the zone has %q %v", i, h.ALPN, h.NoDefaultALPN, sets[kHTTPS].ALPN[i], sets[kHTTPS].NDA[i])
 		}
 		if ver[kHTTPS] == verBad {
 			break
@@ -266,18 +265,18 @@ func observe(name string, res ech.ResolveResult, specOf func(v int) zoneSpec) (v
 			continue
 		}
 		v := dohfake.AddrVersion(got[k][0])
-		sp := specOf(v)
-		if sp == nil || sp[name] == nil || len(sp[name][k].TTLs) != len(got[k]) {
+		owner, sets := endOf(v)
+		if sets == nil || len(sets[k].TTLs) != len(got[k]) {
 			bad(k, "%d addresses %v are not the RRSet of version %d", len(got[k]), got[k], v)
 			continue
 		}
 		want := map[netip.Addr]bool{}
 		for i := range got[k] {
-			want[dohfake.AutoAddr(name, v, i, k == kAAAA)] = true
+			want[dohfake.AutoAddr(owner, v, i, k == kAAAA)] = true
 		}
 		for _, a := range got[k] {
 			if !want[a] {
-				bad(k, "address %s is not an address of %s at version %d", a, name, v)
+				bad(k, "address %s is not an address of %s (where %s leads) at version %d", a, owner, name, v)
 			}
 			delete(want, a)
 		}
